@@ -7,6 +7,21 @@ PROPS = {
         rules=["HdrFields", "FlagAlgebra"],
         shards=8,
     ),
+    "C01": dict(
+        mc=["MC_NameWire"],
+        never_ok=["OOBRead"],
+        gen=[dict(module="Gen_RData", cfg="Gen_RData.cfg", out="rdata_cases.ndjson"),
+             dict(module="Gen_Framing", cfg="Gen_Framing.cfg", out="framing_cases.ndjson")],
+        topic="hostile",
+        rules=["NoPanic", "NoHang", "HeapBound", "PeekTotal"],
+        shards=14,
+    ),
+    "C05": dict(
+        gen=[dict(module="Gen_Framing", cfg="Gen_Framing.cfg", out="framing_cases.ndjson")],
+        topic="framing",
+        rules=["NoPanic", "EnvelopeErr", "ParseEqRef"],
+        shards=12,
+    ),
     "C02": dict(
         gen=[dict(module="Gen_Packet", cfg="Gen_Packet.cfg", out="packet_cases.ndjson",
                   simulate=dict(quick="num=1500", thorough="num=25000", depth=40))],
@@ -126,5 +141,31 @@ TEXT = {
               "crate must accept and expose exactly as the reference decoder does."),
         note=_TRUSTED,
         technique="TLA+ Message/EDNS Ref codec; TLC-generated messages and builder behaviours replayed; trace validation",
+    ),
+    "C01": dict(
+        text=("Packet::parse and the eight header-peek functions of the real crate are run (catch_unwind, 5 s watchdog, "
+              "thread-local counting allocator, loop-iteration counter hook) on: every truncation and +-1 perturbation "
+              "of every byte (hence of every length-like field, count and pointer) of TLC-generated reference encodings "
+              "of all record types and of three-record messages; header counts beyond the body; pointer chains "
+              "referenced many times up to 64 KiB; all pointer graphs over 3 slots x 13 targets; seeded random byte "
+              "strings of 0..65535 bytes and random mutations; buffers of 0..14 bytes for the peek functions. TLC "
+              "judges each event in the trace specification: outcome is a value or an error (NoPanic), steps <= "
+              "64n+1024 (NoHang), peak heap <= 2048n+65536 (HeapBound), peek results equal Header.tla's fields or are "
+              "errors (PeekTotal). The name-parsing loop is additionally model-checked (MC_NameWire) to terminate with "
+              "a decreasing variant and never read out of bounds. Absence of panics is established by observation on "
+              "the generated inputs, not by proof."),
+        note=_TRUSTED + " Heap accounting counts bytes requested on the calling thread; the linear constants are chosen so that a parser materialising names (<=127 labels per 2-byte pointer) satisfies them.",
+        technique="TLC-generated encodings mutated systematically, executed against the crate; outcomes and resource counters validated by the TLA+ trace spec; loop termination model-checked",
+    ),
+    "C05": dict(
+        text=("TLC generates, for every record type, messages whose first record's RDLENGTH differs from the natural size "
+              "of its typed content by -2,-1,+1,+2,+7 (length field only, or data resized with record-like padding), "
+              "followed by two sentinel records, and messages whose counts are off by one; plus every truncation of the "
+              "exact variants. The real crate parses each; TLC compares the result with the independent envelope "
+              "walker/decoder of Message.tla: reject when the walker rejects, otherwise every entry equal to the "
+              "walker's entry (decoded from its own RDLENGTH span, surplus ignored) -- never an entry read from the "
+              "middle of a record."),
+        note=_TRUSTED,
+        technique="TLA+ envelope walker (Message.tla) as oracle; TLC-generated framing variants replayed; trace validation",
     ),
 }
